@@ -380,22 +380,36 @@ _sched("C03", "Theorems over every accepted trace: after a command failure that 
               "(C03_statusMon_sound) and evaluated on every trace of the real executor; a generator stream makes top-level callers wait for "
               "indirectly started failing executions and vice versa.")
 PROPS["C16"] = {
-    "lean": "Props.C16", "domains": [{"name": "decode", "env": {"TASK_X_REMOTE_TASKFILES": "1"}}],
+    "lean": "Props.C16", "domains": [{"name": "decode", "env": {"TASK_X_REMOTE_TASKFILES": "1"}, "timeout": 3000}], "cli": True,
     "trusted": ["yaml.v3, chroma, go-task/template and mvdan/sh themselves do not panic (every byte sequence reaches Task only through them); "
                 "yaml.v3 mapping nodes have an even number of children; the typed extractor /verif/extract2 enumerates index / slice / unchecked "
                 "assertion / Must* / panic expressions and loops that read a field through the element of a list of pointers without a "
-                "nil guard (other nil-pointer dereferences and division are not enumerable syntactically: the decode correspondence is what "
-                "looks for those)"],
-    "assumptions": ["partial by scope: the theorem covers Task's own panic-capable expressions on the load/list/compile/resolve path and, for running, "
-                    "the guards of RunTask / runCommand under --dry; documents mutated from real Taskfiles are compiled and listed but not run "
-                    "(their sh: / precondition / status commands are arbitrary), remote includes are offline"],
-    "level_text": "Theorem (decide over the regenerated, typed table of every panic-capable expression on the path): each site is discharged by a "
-                  "recorded reason, no stale reasons; lemmas for the two non-obvious reasons (yaml children come in pairs; snippet bounds stay within "
-                  "both line lists); compiled_lists_nil_free: every list-of-pointers field of the compiled task is filtered of nil entries or is the "
-                  "reviewed pass-through field whose readers all guard. Termination from the total Lean models of load/merge and C07_terminates_all. Tie: node-shape grammar at every "
-                  "schema position, mutated real Taskfiles with CR/NEL/LS terminators, metacharacter names, run in a worker process through Setup / "
-                  "ListTasks / FastCompiledTask / GetTask and (grammar documents) Run --dry, Run --dry --force --yes, Run --summary, Status of every task; a "
-                  "panic (also in goroutines Task starts) or a time-out is a violation.",
+                "nil guard, keyed by occurrence (other nil-pointer dereferences and division are not enumerable syntactically: the decode "
+                "correspondence is what looks for those); its origin analysis of task values (taskFlows) reads the textually last assignment "
+                "before a call and does not follow loops; its call graph resolves interface calls to every implementing method of the module "
+                "and does not see calls through function values other than self-calling closures"],
+    "assumptions": ["partial by scope: the theorem covers Task's own panic-capable expressions on the load/list/compile/resolve/watch path and in the "
+                    "command-line front end (cmd/task, internal/flags, internal/logger, taskrc, experiments) and, for running, the guards of RunTask / "
+                    "runCommand; documents mutated from real Taskfiles are compiled and listed but not run (their sh: / precondition / status commands "
+                    "are arbitrary), remote includes are offline; malformed FLAGS (pflag exits with 2) are outside the property's quantifier and not generated; "
+                    "termination of loops is covered by the total Lean models of load / merge and by C07_terminates_all, recursion by the reviewed table"],
+    "level_text": "Theorems (decide over regenerated, typed tables): every panic-capable expression on the path - keyed by OCCURRENCE, so a second "
+                  "expression of the same shape is a new site - is discharged by a recorded reason (all_panic_sites_discharged); the 'compiled' reasons "
+                  "are checked against the extracted table of every call that hands over a task: each consumer gets its task from CompiledTask / "
+                  "FastCompiledTask / compiledTask / GetTaskList at every call site, through parameters, or the caller is dead code "
+                  "(compiled_reasons_checked - false of the tree before the Globs fix, whose watch-mode caller passed the raw task); "
+                  "compiled_lists_nil_free: every list-of-pointers field of the compiled task is filtered of nil entries or is the reviewed pass-through "
+                  "field whose readers all guard; all_recursion_bounded: every function on a cycle of the static call graph (and every self-calling "
+                  "closure) has a recorded bound - visited set, call counter, structural, or a static cycle that cannot be taken; lemmas for the two "
+                  "non-obvious reasons (yaml children come in pairs; snippet bounds stay within both line lists); C16_outcomes: an error is acceptable "
+                  "exactly when its code is a documented constant of errors/errors.go (Gen.Codes), error_types_documented. Tie: node-shape grammar at "
+                  "every schema position of the root AND of an included file, mutated real Taskfiles with CR/NEL/LS terminators, metacharacter names, "
+                  "names / aliases / keys of 10^3-10^4 characters, run in a worker process (address-space cap) through Setup / ListTasks / --list --json / "
+                  "FastCompiledTask / GetTask and (grammar documents) Run --dry, Run --dry --force --yes, Run --summary, Status, a Run with command-line "
+                  "variable assignments and one non-dry Run of every task; the real binary with .taskrc.yml shapes, TASK_* environment values, "
+                  "assignments and listing flags (exit code must be documented); watch mode on the binary (nil source entries, cyclic call graphs, a "
+                  "file touched while watching). A panic (also in goroutines Task starts), a time-out, a watcher that never gets to watch, or an "
+                  "undocumented exit code is a violation.",
     "level_note": "Trusted: Lean kernel; extractor; third-party parsers; harness worker supervision.",
 }
 PROPS["C18"] = {
